@@ -251,6 +251,8 @@ const TEMPLATES: &[(&str, Option<&str>, &str)] = &[
         None,
         "f :: fn n, v ->\n    if n <= 0 do\n        ret v + 1\n    end\n    f(n - 1, \"s\")\nend\n\nstart :: fn do\n    print(f(2, 1))\nend\n",
     ),
+    ("quotient of an un-annotated parameter compared with a str", None, "f :: fn p ->\n    (p / 2) > \"s\"\nend\n\nstart :: fn do\n    print(f(1.0))\nend\n"),
+    ("quotient of an un-annotated parameter compared with the value of an else-less if", None, "f :: fn p, c ->\n    (p / 2) > (if c do\n        0.0\n    end)\nend\n\nstart :: fn do\n    print(f(1.0, false))\nend\n"),
     ("deferred tuple comparison applied to a str element", None, "lt :: fn p ->\n    (p, 1) < (6, 1)\nend\n\nstart :: fn do\n    s := \"x\"\n    print(lt(s))\nend\n"),
     ("deferred tuple subtraction applied to a str element", None, "sub :: fn p ->\n    (p, 1) - (6, 1)\nend\n\nstart :: fn do\n    s := \"x\"\n    print(sub(s))\nend\n"),
     ("tuple addition with string elements (sound: concatenation)", None, "start :: fn do\n    t := (1, \"a\") + (2, \"b\")\n    print(t)\n    u := t\n    u += (1, \"c\")\n    print(u)\nend\n"),
